@@ -1,6 +1,7 @@
 package main
 
 import (
+	"go/token"
 	"sort"
 	"fmt"
 	"os"
@@ -91,13 +92,14 @@ func (e *Engine) isObservedExternalHeight(v ssa.Value) (bool, string) {
 }
 
 func runC06(e *Engine, r *Report, tier string) {
-	r.Explanation = "C06, structural clauses. Decided: R1 the functions that release outgoing value for timeout are called only from the function that records a newly observed external height (writer of 0x32), after that write; R2 each release decision compares the record's own timeout field with the ExternalBlockHeight read from 0x32 — never the local block height/time or the projected height — and releases only on `timeout < observed` or `timeout <= observed`; R3 this is consistent with every `require(block.number < timeout)` in solidity/contracts/bridge/FxBridgeLogic*.sol; R4 batch / bridge-call creation is dominated by `timeout > 0` where timeout is the projecting function's result and that function returns 0 when no external height was observed; R5 the batch-cancel routine is called only from timeout cleanup and from the executed-batch handler; R6 the external height an observed event carries is covered by the claim hash of every claim type, i.e. it is the height a quorum agreed on (decided as C03.R1). Not decided: projected-height arithmetic, joint behaviour with event ordering."
+	r.Explanation = "C06, structural clauses. Decided: R1 the functions that release outgoing value for timeout are called only from the function that records a newly observed external height (writer of 0x32), after that write; R2 each release decision compares the record's own timeout field with the ExternalBlockHeight read from 0x32 — never the local block height/time or the projected height — and releases only on `timeout < observed` or `timeout <= observed`; R3 this is consistent with every `require(block.number < timeout)` in solidity/contracts/bridge/FxBridgeLogic*.sol; R4 batch / bridge-call creation is dominated by `timeout > 0` where timeout is the projecting function's result and that function returns 0 when no external height was observed; R5 the batch-cancel routine is called only from timeout cleanup and from the executed-batch handler; R6 the external height an observed event carries is covered by the claim hash of every claim type, i.e. it is the height a quorum agreed on (decided as C03.R1); R7 if a parked claim kind settles an outgoing record only when it is executed, the timeout sweep of that record family is guarded by a lookup among the parked claims (0x54), so that an observed result excludes the timeout refund. Not decided: projected-height arithmetic, joint behaviour with event ordering."
 	r.Trusted = []string{"go/ssa dominance", "purpose-built scanner for `require(block.number <op> <timeout>)` in Solidity"}
 	r.Rule("R1", "timeout cleanup is called only right after an external height is recorded (0x32 write dominates the call)", 2, "cleanup functions found by R2")
 	r.Rule("R2", "release decision: record timeout vs observed external height (0x32), direction timeout<=observed", 2, "comparisons on OutgoingTxBatch.BatchTimeout / OutgoingBridgeCall.Timeout guarding effects")
 	r.Rule("R3", "Go release condition is the complement-side of the contract's `block.number < timeout`", 2, "require(block.number ...) sites in FxBridgeLogic*.sol")
 	r.Rule("R4", "creation guarded by timeout>0; projector returns 0 when nothing observed", 3, "sites assigning BatchTimeout/Timeout")
 	r.Rule("R5", "batch cancel reachable only from timeout cleanup and executed-batch handler", 1, "callers of the function that re-adds batch txs to the pool")
+	r.Rule("R7", "a record whose observed result is parked is not released by the timeout sweep", 1, "families settled at execution of a parked claim")
 	r.Rule("R6", "the external height recorded as observed is part of what the quorum voted on (claim hash covers BlockHeight; decided as C03.R1)", 6, "ExternalClaim implementers")
 	{
 		sub := NewReport("C03", "other")
@@ -430,6 +432,82 @@ func runC06(e *Engine, r *Report, tier string) {
 			r.Check(okc, "R5", ck, e.Pos(c.Pos()), "timeout cleanup or executed-batch handler", "batch cancel (transfers return to the pool) is reachable from a function that is neither the timeout cleanup nor the executed-batch handler")
 		}
 	}
+	// ---------- R7: an outgoing record whose execution result is parked is not released for timeout ----------
+	{
+		late := map[string]string{} // family -> executor callee
+		var executor *ssa.Function
+		for _, fn := range e.Funcs {
+			if isAuxPkg(fnPkgPath(fn)) || fn.Parent() != nil {
+				continue
+			}
+			get, del := false, false
+			allCalls(fn, func(c ssa.CallInstruction) {
+				if e.callDirectOp(c, cc, "54", "get") {
+					get = true
+				}
+				if e.callDirectOp(c, cc, "54", "delete") {
+					del = true
+				}
+			})
+			if get && del && !strings.HasSuffix(fnPkgPath(fn), "/types") {
+				executor = fn
+			}
+		}
+		if executor == nil {
+			r.Fail("R7", "parked-claim executor", "", "UNRESOLVED-ANCHOR: no function reads and deletes the parked claims (0x54)")
+		} else {
+			allCalls(executor, func(c ssa.CallInstruction) {
+				for _, f := range e.calleesOf(c) {
+					for _, fam := range []string{"48", "20"} {
+						if e.HasTransEffect(f, cc, fam, "delete") {
+							late[fam] = e.FnKey(f)
+						}
+					}
+				}
+			})
+			if len(late) == 0 {
+				r.Ok("R7", e.FnKey(executor)+" settles-late", e.Pos(executor.Pos()), "no parked claim kind settles an outgoing record at execution time")
+			}
+			for fam, via := range late {
+				// every releasing function for this family that belongs to the timeout cleanup must consult 0x54
+				n := 0
+				for _, fn := range e.Funcs {
+					if !cleanupRoots[rootFn(fn)] || !e.HasTransEffect(rootFn(fn), cc, fam, "delete") {
+						continue
+					}
+					var releases []ssa.CallInstruction
+					allCalls(fn, func(c ssa.CallInstruction) {
+						if e.callDirectOp(c, cc, fam, "delete") {
+							releases = append(releases, c)
+							return
+						}
+						for _, f := range e.calleesOf(c) {
+							if e.HasTransEffect(f, cc, fam, "delete") && f.Parent() == nil {
+								releases = append(releases, c)
+								return
+							}
+						}
+					})
+					for _, rel := range releases {
+						n++
+						ck := e.FnKey(fn) + " release(0x" + fam + ") vs parked result"
+						ok := false
+						for _, g := range GuardsOf(rel) {
+							if e.dependsOnFamilyRead(fn, g.Cond, cc, "54", 0, map[ssa.Value]bool{}) {
+								ok = true
+							}
+						}
+						r.Check(ok, "R7", ck, e.InstrPos(rel), "the release is guarded by a lookup among the parked claims (0x54): a record whose result was observed is left to that result",
+							"records of family 0x"+fam+" are settled only when their parked result is executed ("+via+"), but the timeout sweep releases them without looking at the parked claims: a call already executed on the external chain is refunded as soon as a later event passes its timeout")
+					}
+				}
+				if n == 0 {
+					r.Fail("R7", "release(0x"+fam+")", "", "UNRESOLVED-ANCHOR: no timeout release of family 0x"+fam+" found")
+				}
+			}
+		}
+	}
+
 }
 
 func flipOp(op string) string {
@@ -473,4 +551,65 @@ func (e *Engine) solidityTimeoutRequires() []solReq {
 		}
 	}
 	return out
+}
+
+// dependsOnFamilyRead: the value derives (through lookups, loads of captured/local variables assigned anywhere in fn,
+// phis, conversions, calls) from a call that reads the given key family.
+func (e *Engine) dependsOnFamilyRead(fn *ssa.Function, v ssa.Value, mod, fam string, depth int, seen map[ssa.Value]bool) bool {
+	if v == nil || depth > 10 || seen[v] {
+		return false
+	}
+	seen[v] = true
+	switch x := v.(type) {
+	case *ssa.Call:
+		if e.callDirectOp(x, mod, fam, "get,has,iter") {
+			return true
+		}
+		for _, f := range e.calleesOf(x) {
+			if e.HasTransEffect(f, mod, fam, "get,has,iter") {
+				return true
+			}
+		}
+		for _, a := range callArgs(x) {
+			if e.dependsOnFamilyRead(fn, a, mod, fam, depth+1, seen) {
+				return true
+			}
+		}
+	case *ssa.Lookup:
+		return e.dependsOnFamilyRead(fn, x.X, mod, fam, depth+1, seen)
+	case *ssa.Extract:
+		return e.dependsOnFamilyRead(fn, x.Tuple, mod, fam, depth+1, seen)
+	case *ssa.UnOp:
+		if x.Op == token.MUL {
+			// stores to the same variable anywhere in fn (and, for captured variables, in the enclosing function)
+			hit := false
+			for _, f := range []*ssa.Function{fn, fn.Parent()} {
+				if f == nil {
+					continue
+				}
+				allInstrs(f, func(in ssa.Instruction) {
+					if st, ok := in.(*ssa.Store); ok && f == fn && st.Addr == x.X {
+						if e.dependsOnFamilyRead(fn, st.Val, mod, fam, depth+1, seen) {
+							hit = true
+						}
+					}
+				})
+			}
+			return hit
+		}
+		return e.dependsOnFamilyRead(fn, x.X, mod, fam, depth+1, seen)
+	case *ssa.Phi:
+		for _, ed := range x.Edges {
+			if e.dependsOnFamilyRead(fn, ed, mod, fam, depth+1, seen) {
+				return true
+			}
+		}
+	case *ssa.BinOp:
+		return e.dependsOnFamilyRead(fn, x.X, mod, fam, depth+1, seen) || e.dependsOnFamilyRead(fn, x.Y, mod, fam, depth+1, seen)
+	case *ssa.Convert:
+		return e.dependsOnFamilyRead(fn, x.X, mod, fam, depth+1, seen)
+	case *ssa.ChangeType:
+		return e.dependsOnFamilyRead(fn, x.X, mod, fam, depth+1, seen)
+	}
+	return false
 }
